@@ -15,7 +15,7 @@ for ID in "$@"; do
   P=${ID%%-*}
   WT=/tmp/wt/nretest-$ID
   git -C /repo worktree add -q --detach $WT HEAD || continue
-  if ! git -C $WT apply /verif/neutral/$ID/patch.diff 2>/dev/null; then echo "$ID: patch no longer applies to /repo HEAD"; git -C /repo worktree remove --force $WT; continue; fi
+  if ! (git -C $WT apply /verif/neutral/$ID/patch.diff 2>/dev/null || (cd $WT && patch -p1 -F3 -s --no-backup-if-mismatch < /verif/neutral/$ID/patch.diff >/dev/null 2>&1)); then echo "$ID: patch no longer applies to /repo HEAD"; git -C /repo worktree remove --force $WT; continue; fi
   cp evidence/$P.json /tmp/wt/evidence-$P.bak 2>/dev/null
   o=$(VERIF_REPO=$WT timeout 3000 ./check $P --tier quick 2>&1 | grep -E "^(VIOLATION|OK)" | head -3 | tr '\n' ' ')
   cp /tmp/wt/evidence-$P.bak evidence/$P.json 2>/dev/null
